@@ -1,4 +1,247 @@
-//! engine `xmltok` (stub)
-pub fn run(_fields: &[&str]) -> String {
-    "unimplemented".to_string()
+//! engine `xmltok` (C15) — the real xml5ever tokenizer with a recording sink, and the real XML
+//! parser into RcDom for tree-level oracles (protocol: lean/H5V/Model/XmlTokDriver.lean).
+//!
+//! `xmltok<TAB>tok<TAB><opts><TAB><state><TAB><chunks>`
+//!     opts = `exact=0|1,bom=0|1`; state = Rust Debug name of an `XmlState` or `-` (Data);
+//!     chunks = strings as space-hex code points, `|`-separated (`-` = empty chunk).
+//!     output: canonical tokens `;`-separated (adjacent character tokens merged):
+//!       `C:<hex>`  `T:<s|e|m|h>:<prefix|~>:<local>:[<prefix|~>/<local>=<value>,…]`  (m = EmptyTag, h = ShortTag)
+//!       `P:<target>:<data>`  `M:<comment>`  `D:<name|~>:<public|~>:<system|~>`  `E:<message>`  `EOF`  `N`
+//!     hex strings use `.` as separator inside a token (`-` = empty).
+//! `xmltok<TAB>tree<TAB><opts><TAB><chunks>`
+//!     the same chunks through `xml5ever::driver::parse_document(RcDom)`: `T=<tree dump>` (no model).
+use super::meta::dump_dom;
+use crate::proto::*;
+use markup5ever::buffer_queue::BufferQueue;
+use markup5ever_rcdom::RcDom;
+use std::cell::RefCell;
+use tendril::{StrTendril, TendrilSink};
+use xml5ever::driver::{parse_document, XmlParseOpts};
+use xml5ever::tokenizer::states::{AttrValueKind::*, DoctypeKind::*, XmlState};
+use xml5ever::tokenizer::{ProcessResult, TagKind, Token, TokenSink, XmlTokenizer, XmlTokenizerOpts};
+
+pub fn all_states() -> Vec<XmlState> {
+    use XmlState::*;
+    let mut v = vec![
+        Data,
+        TagState,
+        EndTagState,
+        EndTagName,
+        EndTagNameAfter,
+        Pi,
+        PiTarget,
+        PiTargetAfter,
+        PiData,
+        PiAfter,
+        MarkupDecl,
+        CommentStart,
+        CommentStartDash,
+        Comment,
+        CommentLessThan,
+        CommentLessThanBang,
+        CommentLessThanBangDash,
+        CommentLessThanBangDashDash,
+        CommentEnd,
+        CommentEndDash,
+        CommentEndBang,
+        Cdata,
+        CdataBracket,
+        CdataEnd,
+        TagName,
+        TagEmpty,
+        TagAttrNameBefore,
+        TagAttrName,
+        TagAttrNameAfter,
+        TagAttrValueBefore,
+        TagAttrValue(Unquoted),
+        TagAttrValue(SingleQuoted),
+        TagAttrValue(DoubleQuoted),
+        Doctype,
+        BeforeDoctypeName,
+        DoctypeName,
+        AfterDoctypeName,
+    ];
+    for k in [Public, System] {
+        v.push(AfterDoctypeKeyword(k));
+        v.push(BeforeDoctypeIdentifier(k));
+        v.push(DoctypeIdentifierDoubleQuoted(k));
+        v.push(DoctypeIdentifierSingleQuoted(k));
+        v.push(AfterDoctypeIdentifier(k));
+    }
+    v.extend([BetweenDoctypePublicAndSystemIdentifiers, BogusDoctype, BogusComment]);
+    v
+}
+
+fn parse_state(s: &str) -> Option<XmlState> {
+    all_states().into_iter().find(|st| format!("{:?}", st) == s)
+}
+
+fn dh(s: &str) -> String {
+    if s.is_empty() {
+        return "-".into();
+    }
+    let v: Vec<String> = s.chars().map(|c| format!("{:x}", c as u32)).collect();
+    v.join(".")
+}
+
+fn opt_dh(o: &Option<StrTendril>) -> String {
+    match o {
+        None => "~".into(),
+        Some(s) => dh(s),
+    }
+}
+
+enum Rec {
+    Chars(String),
+    Other(String),
+}
+
+#[derive(Default)]
+struct RecSink {
+    out: RefCell<Vec<Rec>>,
+}
+
+impl RecSink {
+    fn push(&self, r: Rec) {
+        let mut out = self.out.borrow_mut();
+        if let Rec::Chars(ref s) = r {
+            if let Some(Rec::Chars(prev)) = out.last_mut() {
+                prev.push_str(s);
+                return;
+            }
+        }
+        out.push(r);
+    }
+    fn render(&self) -> String {
+        let v: Vec<String> = self
+            .out
+            .borrow()
+            .iter()
+            .map(|r| match r {
+                Rec::Chars(s) => format!("C:{}", dh(s)),
+                Rec::Other(s) => s.clone(),
+            })
+            .collect();
+        v.join(";")
+    }
+}
+
+impl TokenSink for RecSink {
+    type Handle = ();
+
+    fn process_token(&self, token: Token) -> ProcessResult<()> {
+        match token {
+            Token::Characters(s) => self.push(Rec::Chars(s.to_string())),
+            Token::NullCharacter => self.push(Rec::Other("N".into())),
+            Token::Tag(t) => {
+                let k = match t.kind {
+                    TagKind::StartTag => "s",
+                    TagKind::EndTag => "e",
+                    TagKind::EmptyTag => "m",
+                    TagKind::ShortTag => "h",
+                };
+                let attrs: Vec<String> = t
+                    .attrs
+                    .iter()
+                    .map(|a| {
+                        format!(
+                            "{}/{}={}",
+                            a.name.prefix.as_ref().map(|p| dh(p)).unwrap_or("~".into()),
+                            dh(&a.name.local),
+                            dh(&a.value)
+                        )
+                    })
+                    .collect();
+                self.push(Rec::Other(format!(
+                    "T:{}:{}:{}:[{}]",
+                    k,
+                    t.name.prefix.as_ref().map(|p| dh(p)).unwrap_or("~".into()),
+                    dh(&t.name.local),
+                    attrs.join(",")
+                )));
+            },
+            Token::ProcessingInstruction(p) => {
+                self.push(Rec::Other(format!("P:{}:{}", dh(&p.target), dh(&p.data))))
+            },
+            Token::Comment(s) => self.push(Rec::Other(format!("M:{}", dh(&s)))),
+            Token::Doctype(d) => self.push(Rec::Other(format!(
+                "D:{}:{}:{}",
+                opt_dh(&d.name),
+                opt_dh(&d.public_id),
+                opt_dh(&d.system_id)
+            ))),
+            Token::ParseError(e) => self.push(Rec::Other(format!("E:{}", dh(&e)))),
+            Token::EndOfFile => self.push(Rec::Other("EOF".into())),
+        }
+        ProcessResult::Continue
+    }
+}
+
+fn get_opt(opts: &str, key: &str, default: bool) -> bool {
+    for p in opts.split(',') {
+        let kv: Vec<&str> = p.split('=').collect();
+        if kv.len() == 2 && kv[0] == key {
+            return kv[1] == "1";
+        }
+    }
+    default
+}
+
+fn tok_opts(opts: &str, state: Option<XmlState>) -> XmlTokenizerOpts {
+    XmlTokenizerOpts {
+        exact_errors: get_opt(opts, "exact", false),
+        discard_bom: get_opt(opts, "bom", true),
+        profile: false,
+        initial_state: state,
+    }
+}
+
+fn run_tok(opts: &str, state: &str, chunks: &str) -> String {
+    let state = if state == "-" {
+        Some(None)
+    } else {
+        parse_state(state).map(Some)
+    };
+    let chunks: Option<Vec<String>> = chunks.split('|').map(parse_string).collect();
+    let (Some(state), Some(chunks)) = (state, chunks) else {
+        return "bad-case".into();
+    };
+    let tok = XmlTokenizer::new(RecSink::default(), tok_opts(opts, state));
+    let queue = BufferQueue::default();
+    for ch in chunks {
+        queue.push_back(StrTendril::from_slice(&ch));
+        let _ = tok.feed(&queue);
+        if !queue.is_empty() {
+            return format!("QUEUE-NOT-DRAINED {}", tok.sink.render());
+        }
+    }
+    tok.end();
+    tok.sink.render()
+}
+
+fn run_tree(opts: &str, chunks: &str) -> String {
+    let chunks: Option<Vec<String>> = chunks.split('|').map(parse_string).collect();
+    let Some(chunks) = chunks else {
+        return "bad-case".into();
+    };
+    let mut p = parse_document(
+        RcDom::default(),
+        XmlParseOpts {
+            tokenizer: tok_opts(opts, None),
+            tree_builder: Default::default(),
+        },
+    );
+    for ch in chunks {
+        p.process(StrTendril::from_slice(&ch));
+    }
+    let dom = p.finish();
+    format!("T={}", dump_dom(&dom))
+}
+
+pub fn run(fields: &[&str]) -> String {
+    match fields {
+        ["tok", opts, state, chunks] => run_tok(opts, state, chunks),
+        ["tree", opts, chunks] => run_tree(opts, chunks),
+        _ => "bad-case".into(),
+    }
 }
